@@ -191,7 +191,17 @@ AesVectors ==
      key |-> RBytes(k + 200, 16), payload |-> RBytes(n + k, n),
      exp |-> [payload |-> RBytes(n + k, n), plain |-> RBytes(n + k, n) \o ConfPadBytes(n)]] : n \in lens, k \in 1..2 }
 
-Vectors == CASE Family = "aes" -> AesVectors
+\* one layer value decodes a sequence of packets, as a session's confidentiality layer does: each packet is the
+\* specification's encryption (IV, AES-CBC of payload + pad, evaluated with the standard library), and each must come
+\* back as its own payload whatever the same layer decoded before (longer, shorter, equal, empty)
+AesPacket(key, k, n) == LET iv == RBytes(k + 300, 16)  pl == RBytes(n + k + 1, n) IN
+  [t |-> Cat(<< B(iv), Aes(B(key), B(iv), B(pl \o ConfPadBytes(n))) >>), payload |-> pl]
+LenSeqs == { <<200, 191>>, <<40, 3, 40>>, <<0, 16, 15, 0>>, <<5, 100, 5, 37, 1>>, <<63, 47, 31, 15, 0>>, <<1, 17, 33, 49>>, <<128, 16>> }
+           \cup { <<a, c>> : a \in {0, 7, 15, 16, 31, 48, 90}, c \in {0, 7, 15, 16, 31, 48, 90} }
+AesSeqVectors ==
+  { [id |-> "AES/seq/" \o ToString(q) \o "/" \o ToString(k), prop |-> "C08", kind |-> "aesseq", layer |-> "AES128CBC", class |-> "decode-sequence",
+     key |-> RBytes(k + 210, 16), packets |-> [i \in 1..Len(q) |-> AesPacket(RBytes(k + 210, 16), k * 10 + i, q[i])]] : q \in LenSeqs, k \in 1..2 }
+Vectors == CASE Family = "aes" -> AesVectors \cup AesSeqVectors
              [] Family = "message" -> MsgVectors \cup MsgCorrupt \cup MsgShortSet \cup MsgReuse
              [] Family = "wrapper" -> V2Vectors \cup V2LenCorrupt \cup V1Vectors \cup V1Reuse \cup V2Prefixes
              [] Family = "setup" -> Rakp1Vectors \cup SetupVectors
